@@ -32,7 +32,7 @@ ASSUMPTIONS = ['the reference outcome of a client alone is computed by the harne
 
 def cases(tier, seed):
     rnd = random.Random('c20/%d' % seed)
-    n = 130 if tier == 'quick' else 20000
+    n = 110 if tier == 'quick' else 20000
     for i in range(n):
         yield dict(n=rnd.choice([2, 2, 3, 4, 6, 8]), shared=rnd.random() < 0.5,
                    policy=rnd.choice(['uniform', 'rr', 'starve']), fine=rnd.random() < 0.5,
@@ -47,7 +47,7 @@ def cases(tier, seed):      # noqa: F811
     # one shared requesting entity that is reconfigured (add_scu) several times while many short
     # associations are requested from it; pre-emption concentrated in the configuration code
     rnd = random.Random('c20h/%d' % seed)
-    for i in range(70 if tier == 'quick' else 6000):
+    for i in range(60 if tier == 'quick' else 6000):
         yield dict(n=rnd.choice([3, 4, 6]), shared=True, policy='uniform', fine=True, hot=True,
                    disturb=0, seed=seed * 100069 + i)
     # (the bulk comes after so that a wall-clock budget cut never drops the family above)
